@@ -333,6 +333,12 @@ func dataDeps(v ssa.Value) map[*ssa.Parameter]bool {
 // cells, closure capture and arguments of static calls to module functions) into an argument of a
 // call for which sink reports true. Bounded; used for "the result of this getter is what gets copied".
 func forwardReaches(p *core.Prog, src ssa.Value, sink func(c ssa.CallInstruction, argIdx int) bool) bool {
+	return forwardFlow(p, src, sink, nil)
+}
+
+// forwardFlow is forwardReaches with a second kind of sink: use is called for every instruction that
+// uses a value the source flows into.
+func forwardFlow(p *core.Prog, src ssa.Value, sink func(c ssa.CallInstruction, argIdx int) bool, use func(user ssa.Instruction, x ssa.Value) bool) bool {
 	seen := map[ssa.Value]bool{}
 	work := []ssa.Value{src}
 	push := func(v ssa.Value) {
@@ -352,6 +358,9 @@ func forwardReaches(p *core.Prog, src ssa.Value, sink func(c ssa.CallInstruction
 			continue
 		}
 		for _, ref := range *refs {
+			if use != nil && use(ref, x) {
+				return true
+			}
 			switch y := ref.(type) {
 			case *ssa.Store:
 				if y.Val == x {
@@ -380,7 +389,7 @@ func forwardReaches(p *core.Prog, src ssa.Value, sink func(c ssa.CallInstruction
 					if a != x {
 						continue
 					}
-					if sink(y, i+off) {
+					if sink != nil && sink(y, i+off) {
 						return true
 					}
 					if b, ok := cc.Value.(*ssa.Builtin); ok && (b.Name() == "append" || b.Name() == "copy") {
@@ -391,6 +400,15 @@ func forwardReaches(p *core.Prog, src ssa.Value, sink func(c ssa.CallInstruction
 					}
 					if g := cc.StaticCallee(); g != nil && p.InModule(g) && i < len(g.Params) {
 						push(g.Params[i])
+					}
+					// what a call computes from the value carries it on (String(), SetDigest(x), Join, …)
+					if v, ok := y.(ssa.Value); ok {
+						push(v)
+					}
+				}
+				if cc.IsInvoke() && cc.Value == x {
+					if v, ok := y.(ssa.Value); ok {
+						push(v)
 					}
 				}
 				// the function value itself being called with captured state is followed through MakeClosure
